@@ -304,7 +304,13 @@ def run_probes(pid):
                 ok = p.returncode != 0 and ("lifetime may not live long enough" in p.stdout or "E0521" in p.stdout or "E0597" in p.stdout or "E0515" in p.stdout or "E0499" in p.stdout or "E0716" in p.stdout)
             else:
                 ok = p.returncode != 0 and (code in p.stdout)
-        return dict(file=f, expect=exp, finding=meta.get("finding"), ok=ok, rc=p.returncode, output=p.stdout[-1500:])
+        # what a disagreement means for the property:
+        #   compiles although it must not        -> the escape route is open: a direct violation
+        #   rejected, but for another reason     -> still closed; the probe lost its point (API renamed?): a note
+        #   a must-compile twin does not compile -> the corpus no longer matches the API: correspondence broken
+        kind = "ok" if ok else ("opens" if exp != "accept" and p.returncode == 0 else
+                               "other-reason" if exp != "accept" else "twin-broken")
+        return dict(file=f, expect=exp, finding=meta.get("finding"), ok=ok, kind=kind, rc=p.returncode, output=p.stdout[-1500:])
     with ThreadPoolExecutor(max_workers=16) as ex:
         res = list(ex.map(one, files))
     return res, ""
@@ -344,12 +350,18 @@ def static_property(pid, tier, seed, replay):
     if probes is None:
         violations.append(dict(kind="probes", what="happylock does not build for the probes", detail=perr))
         probes = []
+    probe_notes = []
     for pr in probes:
         if not pr["ok"]:
             if pr["finding"]:
                 out_lines.append(f"note: finding {pr['finding']} no longer reproduces with {os.path.basename(pr['file'])} (informational)")
-            else:
+            elif pr["kind"] == "opens":
                 probe_fail.append(pr)
+            elif pr["kind"] == "other-reason":
+                probe_notes.append(os.path.basename(pr["file"]))
+                out_lines.append(f"note: {os.path.basename(pr['file'])} is still rejected by rustc, but not with the expected error ({pr['expect']}): the route stays closed, the probe has lost its point (informational)")
+            else:
+                violations.append(dict(kind="probes", what=f"the must-compile twin {os.path.basename(pr['file'])} no longer compiles against the current API: the probe corpus no longer matches the code", detail=pr["output"][-800:]))
     # known findings
     for f in known.get("findings", []):
         if f.get("property") != pid: continue
@@ -386,7 +398,7 @@ def static_property(pid, tier, seed, replay):
                             evaluations=len(probes), distinct_nontrivial=len({pr['file'] for pr in probes if pr['expect'] != 'accept'}),
                             rule="every probe is a minimal client program for one escape route (expected to be rejected with a specific error code) or its compiling twin differing in the offending line; non-trivial = must-not-compile probes",
                             samples=samples or ["(no probes)"],
-                            probe_disagreements=len(probe_fail),
+                            probe_disagreements=len(probe_fail), probes_rejected_for_another_reason=probe_notes,
                             static_rules=[dict(rule=r["rule"], offending=r["offending"], recorded_findings=r["recorded"]) for r in (rows or []) if pid in r["property"].split(",")],
                             theorems=evidence.get("theorems", []),
                             exhaustive=True,
